@@ -384,19 +384,21 @@ def prop(pid, **kw):
 
 prop("C02", modules=["SasLexer.Properties.C02"], theorems=["SasLexer.kernel_C02_boundaries", "SasLexer.kernel_C02_last_eof", "SasLexer.kernel_C02_monotone_debug", "SasLexer.kernel_C02_monotone_release", "SasLexer.run_KMono",
                                                             "SasLexer.C02_model_single_eof", "SasLexer.model_single_eof", "SasLexer.awp_sound", "SasLexer.mainLoop_awp",
-                                                            "SasLexer.C02_model", "SasLexer.model_first_at_bom", "SasLexer.cwp_sound", "SasLexer.run_KOld", "SasLexer.dispatchModeDefault_cov"],
+                                                            "SasLexer.C02_model", "SasLexer.model_bytes_sorted", "SasLexer.swp_sound", "SasLexer.mainLoop_sany", "SasLexer.model_first_at_bom", "SasLexer.cwp_sound", "SasLexer.run_KOld", "SasLexer.dispatchModeDefault_cov"],
      variants=["dev", "rel", "dev-sep", "rel-sep"], proj=proj_tok_bytes)
 prop("C03", modules=["SasLexer.Properties.C03"], theorems=["SasLexer.kernel_C03", "SasLexer.C03_model"],
      variants=["dev", "rel", "rel-sep"], proj=proj_positions)
 prop("C04", modules=["SasLexer.Properties.C04"],
      theorems=["SasLexer.kernel_C04_line_positions", "SasLexer.DBuf.resolved_lines_exact", "SasLexer.C04_of_lineWF", "SasLexer.lineWFB_sound",
-               "SasLexer.C04_model", "SasLexer.C04_model_of_mono", "SasLexer.model_lines_exact", "SasLexer.awp_sound", "SasLexer.step_DInv",
+               "SasLexer.C04_model", "SasLexer.model_tokMono", "SasLexer.model_bytes_sorted", "SasLexer.swp_sound", "SasLexer.step_SInv", "SasLexer.C04_model_of_mono", "SasLexer.model_lines_exact", "SasLexer.awp_sound", "SasLexer.step_DInv",
                "SasLexer.mainLoop_awp", "SasLexer.lexToken_awp", "SasLexer.finalizeLoop_inert"],
      variants=["dev", "rel", "rel-sep"], proj=proj_lines)
 prop("C05", modules=["SasLexer.Properties.C05"], theorems=["SasLexer.C05_pure", "SasLexer.C05_wf_needed", "SasLexer.DBuf.resolved_eq_accessors",
-                                                            "SasLexer.C05_model", "SasLexer.C05_model_of_mono", "SasLexer.model_lineWF"],
+                                                            "SasLexer.C05_model", "SasLexer.model_tokMono", "SasLexer.model_bytes_sorted", "SasLexer.C05_model_of_mono", "SasLexer.model_lineWF"],
      variants=["dev", "rel", "rel-sep"], proj=proj_views)
-prop("C09", modules=["SasLexer.Properties.C09"], theorems=["SasLexer.kernel_C09_offsets", "SasLexer.kernel_C09_last_token_exists", "SasLexer.run_KErr"],
+prop("C09", modules=["SasLexer.Properties.C09"], theorems=["SasLexer.kernel_C09_offsets", "SasLexer.kernel_C09_last_token_exists", "SasLexer.run_KErr",
+                                                            "SasLexer.C09_model_order", "SasLexer.lexProgram_KOrd", "SasLexer.step_KOrd", "SasLexer.ewp_sound", "SasLexer.mainLoop_eok",
+                                                            "SasLexer.C09_model_last_token", "SasLexer.model_error_anchor", "SasLexer.step_KAnch", "SasLexer.run_anch"],
      variants=["dev", "rel", "rel-sep"], proj=proj_errors)
 prop("C17", kind="bom", modules=["SasLexer.Properties.C17"],
      theorems=["SasLexer.run_shift", "SasLexer.kernel_C17", "SasLexer.C17_model_partial", "SasLexer.sideOkRun_sound"],
@@ -786,6 +788,16 @@ def check_property(pid, tier, seed):
             broken.append(("axiom audit", alog[-3000:]))
     else:
         obligations, discharged = 1, 0
+    if lean_ok and tier == "thorough":
+        # independent re-check of the compiled property modules by the toolchain's `leanchecker`
+        obligations += 1
+        with Lock("lake"):
+            rc, out, err = run(["lake", "env", "leanchecker"] + list(cfg["modules"]), cwd=LEAN, timeout=1800)
+        R.cov["leanchecker"] = {"modules": list(cfg["modules"]), "exit": rc}
+        if rc == 0:
+            discharged += 1
+        else:
+            broken.append(("leanchecker " + " ".join(cfg["modules"]), (out + err).decode(errors="replace")[-3000:]))
     # tie of the kernel theorems to the code: closed-world audit + primitive (op-script) correspondence
     obligations += 2
     rc, out, err = run(["python3", os.path.join(ROOT, "translator/audit.py")])
